@@ -40,6 +40,49 @@ PROPS = {
             fuzz("load", "FuzzC05", 120),
         ],
     ),
+    "C13": dict(
+        technique="PBT with a constructive reference model (expected text/ranges computed from the generated segment structure) + small-scope enumeration",
+        level_text="Lines are assembled from a segment grammar (text incl. multi-byte and edge whitespace, escapes, open/close/close-all/"
+                   "self-closing markers with typed properties and padding, nesting/overlap, character prefix, select/plural/ordinal/nomarkup) and "
+                   "the parse result is compared with a model computed from the structure: text, attribute multiset (name, rune position, length, "
+                   "typed properties), TextForAttribute. Enumerated: ordinal/plural 0..130, decimal literal forms, character names, text-bit pairs. Search, not proof.",
+        level_note="Constellations on which the documentation is silent are not generated (a whitespace-swallowing marker directly after another marker "
+                   "or escape, re-opening a name that is still open, raw ']' in text, a colon outside a leading 'Name: ' prefix decides nothing about the "
+                   "character attribute). Decimal properties are compared with 1e-12 relative tolerance.",
+        rule="generated segment lists (1-10 segments); non-trivial = at least two markers and (multi-byte text before a marker, or nesting/overlap, "
+             "or a replacement marker, or a decimal property); distinct = distinct serialised segment lists.",
+        assumptions=["whitespace = unicode.IsSpace, as strings.TrimSpace uses", "attribute order and SourcePosition are not compared (C14 compares SourcePosition)"],
+        subs=[
+            rapid("parse", "TestC13Parse", 20000, 200000),
+            enum("enumerated", "TestC13Enumerated"),
+        ],
+    ),
+    "C14": dict(
+        technique="PBT over call histories with a differential oracle (reused parser vs fresh parser; same line after different dialogue prefixes)",
+        level_text="For generated histories of well-formed, truncated and garbage lines parsed on one LineParser, the result for a probe line "
+                   "(text, attributes, positions, source positions, error-ness) must deep-equal the result on a fresh parser, also when parsed twice; "
+                   "at runner level the Line of the probe after a prefix of other lines (including lines whose markup fails) must equal the Line of the probe alone. Search, not proof.",
+        level_note="Model-free differential check: it trusts nothing but reflect.DeepEqual. Lines that panic are C15's business and are discarded here.",
+        rule="history of 0-6 lines (well-formed from the C13 grammar, truncated, or fragment soup) x probe line; non-trivial = the history contains a "
+             "marker-bearing line and the probe yields at least one attribute; distinct = distinct (history, probe) pairs.",
+        assumptions=["runner-level comparison only for lines that can be embedded verbatim in a Yarn script (no # { } < > \\ //, no edge blanks)"],
+        subs=[rapid("pure", "TestC14Pure", 10000, 100000)],
+    ),
+    "C15": dict(
+        technique="PBT + native fuzzing with a validity predicate over every result (ranges inside the text, TextForAttribute safe)",
+        level_text="Arbitrary bytes (invalid UTF-8 included), arbitrary strings, assemblies of marker fragments, well-formed lines with edge whitespace "
+                   "and mutated well-formed lines: ParseMarkup must return without panic, exactly one of (result, error); every attribute must satisfy "
+                   "0 <= position, 0 <= length, position+length <= characters(text); TextForAttribute must not panic and must have the attribute's length. "
+                   "Thorough adds a native coverage-guided campaign. Search, not proof.",
+        level_note="Termination is observed as 'returns within the process timeout'; a hang is triaged by the driver through capture mode.",
+        rule="inputs from five classes (bytes, strings, fragment soup, padded well-formed, mutated well-formed); non-trivial = contains '[' and either "
+             "succeeds with at least one attribute or fails; distinct = distinct inputs.",
+        assumptions=["length comparison of TextForAttribute is skipped when the text is not valid UTF-8"],
+        subs=[
+            rapid("total", "TestC15Total", 20000, 200000),
+            fuzz("total", "FuzzC15", 120),
+        ],
+    ),
     "C20": dict(
         technique="model-based stateful PBT (slice model) + exhaustive small-scope enumeration; invariant over generated token streams; native fuzzing",
         level_text="Generated and exhaustively enumerated operation histories against a slice model (every enqueue/dequeue word up to "
